@@ -846,6 +846,11 @@ def run(chk):
                         "tensor_method": r.get("tm", {}).get("outcome"), "cli_exit": r.get("cli", {}).get("exit_code"),
                         "model": rows[c["id"]].brief() if c["id"] in rows else None})
 
+    # tie to the source by regeneration: the listed definitions are re-translated from /repo by py2coq on
+    # every run and PROVED equal to the hand models (coq/props/TIE.v), plus a translator self-check
+    from props._tie import run_tie
+    run_tie(chk, ['names'])
+
 
 def check_findings_files(chk) -> bool:
     """coq/findings/K_C08_*.v document today's defects against the model; if one stops compiling
